@@ -85,10 +85,11 @@ TAml ==
 TAlt ==
   /\ E.ev = "alt"
   /\ LET I(what) == [l |-> l, run |-> E.run, what |-> what, kind |-> E.what, sig |-> "alt/" \o E.what \o "/" \o what] IN
-     /\ Judge("C15", ~E.panic_a /\ ~E.panic_b, I("unexpected_panic"))
+     \* the two paths agree also on refusal: either both emit, or both refuse
+     /\ Judge("C15", E.panic_a = E.panic_b /\ (E.panic_a => ~TreeFits(E.a)), I("paths_disagree_on_refusal"))
      /\ IF Has(E, "summary")
         THEN Judge("C15", E.len_a = E.len_b /\ E.first_diff = -1, I("bytes_differ_large") @@ [at |-> E.first_diff, la |-> E.len_a, lb |-> E.len_b])
-        ELSE Judge("C15", E.bytes_a = E.bytes_b, I("bytes_differ") @@ [at |-> FirstDiff(E.bytes_a, E.bytes_b), la |-> Len(E.bytes_a), lb |-> Len(E.bytes_b)])
+        ELSE Judge("C15", (E.panic_a \/ E.panic_b) \/ E.bytes_a = E.bytes_b, I("bytes_differ") @@ [at |-> FirstDiff(E.bytes_a, E.bytes_b), la |-> Len(E.bytes_a), lb |-> Len(E.bytes_b)])
 
 ---------------------------------------------------------------------------
 \* C07: the PkgLength encoder over batches of lengths (both forms); C18: lengths that do not fit are refused
